@@ -848,6 +848,15 @@ impl Axecutor {
         // envp[0] = NULL
         stack_layout.push(0);
 
+        // The frame lies above the requested `length` bytes of stack space; 16 more bytes absorb the alignment
+        let frame_len = (stack_layout.len() as u64) * 8;
+        let total_len = match length.checked_add(frame_len + 16) {
+            Some(total_len) => total_len,
+            None => {
+                return Err(AxError::from("Requested stack length is too large"));
+            }
+        };
+
         let mut stack_start: u64 = 0x1000;
         loop {
             if stack_start >= 0x7fff_ffff_ffff_ffff {
@@ -857,11 +866,7 @@ impl Axecutor {
             }
 
             if self
-                .mem_init_zero_named(
-                    stack_start,
-                    length + (stack_layout.len() as u64) * 8,
-                    "Stack".to_string(),
-                )
+                .mem_init_zero_named(stack_start, total_len, "Stack".to_string())
                 .is_ok()
             {
                 break;
@@ -870,12 +875,9 @@ impl Axecutor {
         }
 
         // TODO: auxiliary vector
-        // Make sure the stack is aligned to 16 bytes
-        let mut stack_top = (stack_start + length - 16) & !0xf;
-        if stack_layout.len() % 2 == 1 {
-            // However, if we push an uneven amount of 64 bit values, we need to adjust
-            stack_top -= 8;
-        }
+        // The stack pointer ends up aligned to 16 bytes with `length` bytes (up to alignment) below it;
+        // the frame is written from its last entry downwards and ends just above the stack pointer
+        let mut stack_top = ((stack_start + length + 8) & !0xf) + frame_len;
 
         for val in stack_layout.iter().rev() {
             self.mem_write_64(stack_top, *val)?;
